@@ -55,6 +55,43 @@ def _codes(obj, seen):
             yield from _codes(v, seen)
 
 
+_MUTABLE_PARAMS = {}
+
+
+def mutable_default_params(modname):
+    """{code object id: names of parameters whose default value is a mutable object} for the functions of a module - a default
+    argument is created once and shared by every call (a classic place for a hidden cache or scratch buffer)"""
+    if modname not in _MUTABLE_PARAMS:
+        res = {}
+        mod = sys.modules.get(modname)
+
+        def visit(fn):
+            if isinstance(fn, (staticmethod, classmethod)):
+                fn = fn.__func__
+            fn = getattr(fn, '__wrapped__', fn)
+            if not isinstance(fn, types.FunctionType):
+                return
+            code = fn.__code__
+            names = set()
+            pos = code.co_varnames[:code.co_argcount]
+            for name, val in zip(pos[len(pos) - len(fn.__defaults__ or ()):], fn.__defaults__ or ()):
+                if _mutable(val):
+                    names.add(name)
+            for name, val in (fn.__kwdefaults__ or {}).items():
+                if _mutable(val):
+                    names.add(name)
+            if names:
+                res[id(code)] = (code, names)
+        for v in list(vars(mod).values()) if mod is not None else ():
+            if isinstance(v, type) and getattr(v, '__module__', None) == modname:
+                for m in vars(v).values():
+                    visit(m)
+            elif getattr(v, '__module__', None) == modname:
+                visit(v)
+        _MUTABLE_PARAMS[modname] = res
+    return _MUTABLE_PARAMS[modname]
+
+
 def declared_globals(modname):
     """names some function of the module rebinds with a `global` statement"""
     if modname not in _DECLARED:
@@ -74,7 +111,8 @@ def declared_globals(modname):
 
 def shared_offsets(code, globs):
     """instruction offsets of `code` that access state shared between threads: module-level names that are rebound somewhere with
-    `global`, module-level mutable objects (dict, list, set, instances), the same reached as attributes of an imported module"""
+    `global`, module-level mutable objects (dict, list, set, instances), the same reached as attributes of an imported module, and
+    parameters whose default value is a mutable object"""
     key = id(code)
     hit = _SHARED.get(key)
     if hit is not None and hit[0] is code:
@@ -83,8 +121,12 @@ def shared_offsets(code, globs):
     declared = declared_globals(modname)
     out = set()
     ins = list(dis.get_instructions(code))
+    hit = mutable_default_params(modname).get(id(code))
+    shared_params = hit[1] if hit is not None and hit[0] is code else ()
     for i, x in enumerate(ins):
         if x.opname in ('STORE_GLOBAL', 'DELETE_GLOBAL'):
+            out.add(x.offset)
+        elif shared_params and x.opname.startswith(('LOAD_FAST', 'STORE_FAST')) and x.argval in shared_params:
             out.add(x.offset)
         elif x.opname == 'LOAD_GLOBAL':
             name = x.argval
@@ -175,15 +217,33 @@ class Execution:
                 point(tid)
             return local
 
+        window = {}          # frame id -> number of line events that are still scheduling points ('sharedw')
+        wsize = 6 if gran == 'sharedw' else 0
+
         def local_shared(frame, event, arg):
-            if event == 'opcode' and frame.f_lasti in shared_offsets(frame.f_code, frame.f_globals):
-                point(tid)
+            if event == 'opcode':
+                if frame.f_lasti in shared_offsets(frame.f_code, frame.f_globals):
+                    point(tid)
+                    if wsize:
+                        # an object fetched from shared state is usually used through a local name afterwards: the next few lines
+                        # of this frame are scheduling points as well
+                        window[id(frame)] = wsize
+                        frame.f_trace_lines = True
+            elif event == 'line':
+                left = window.get(id(frame), 0)
+                if left > 0:
+                    window[id(frame)] = left - 1
+                    point(tid)
+                    if left == 1:
+                        frame.f_trace_lines = False
+            elif event == 'return':
+                window.pop(id(frame), None)
             return local_shared
 
         def glob(frame, event, arg):
             if not frame.f_code.co_filename.startswith(libdir):
                 return None
-            if gran == 'shared':
+            if gran in ('shared', 'sharedw'):
                 # partial-order reduction: a context switch matters only immediately before an access to state that both threads can
                 # reach; frames without such an access run untraced
                 if not shared_offsets(frame.f_code, frame.f_globals):
@@ -220,7 +280,7 @@ class Execution:
                 self.main.release()
 
     def run(self):
-        if self.gran in ('opcode', 'shared'):
+        if self.gran in ('opcode', 'shared', 'sharedw'):
             _warm_opcode_tracing()
         ths = [threading.Thread(target=self._run, args=(i,), daemon=True) for i in range(2)]
         for t in ths:
